@@ -68,6 +68,9 @@ var canRenameFileBetweenDirs = func(srcDir, dstDir string) (bool, error) {
 	if err != nil {
 		return false, err
 	}
+	// Never leave the probe files behind, whatever happens below. (After
+	// a successful rename the source is already gone; that's fine.)
+	defer os.Remove(srcFile.Name())
 	if err := srcFile.Close(); err != nil {
 		return false, err
 	}
@@ -75,6 +78,7 @@ var canRenameFileBetweenDirs = func(srcDir, dstDir string) (bool, error) {
 	if err != nil {
 		return false, err
 	}
+	defer os.Remove(dstFile.Name())
 	if err := dstFile.Close(); err != nil {
 		return false, err
 	}
